@@ -12,6 +12,7 @@ the assignment (so an alias taken before a reassignment keeps the old value, and
     `Cls.helper(..)`, `cls.helper(..)`) whose body is itself straight-line code ending in one `return`:
     parameters bound to the (already expanded) arguments, defaults honoured, body executed symbolically,
     the call replaced by the returned expression                                             -> inlined
+  * `f(*(a, b))`, `f(**{"k": v})`, `f(**dict(k=v))`, `functools.partial(g, a, k=v)(b, m=w)`   -> plain calls
   * docstrings, comments, `pass`, imports, logging calls, bare annotations                    -> ignored
 
 Fail closed (TranslationError through `fail`) on: in-place update of a local that has an alias, a lambda /
